@@ -618,10 +618,7 @@ func CosimWorker(pm *Params) (*Stats, []*Failure) {
 			f = gen.File(gr, cfg)
 		}
 		or := rng.New(rng.Sub(runSeed, "options"))
-		style := 0
-		if or.P(0.5) {
-			style = 2
-		}
+		style := []int{0, 0, 2, 2, 3, 4}[or.Intn(6)]
 		lm := or.Bool()
 		layoutSeed := rng.Sub(runSeed, "layout")
 		p := buildProgram(f, style, layoutSeed, lm)
